@@ -130,6 +130,22 @@ def run(chk: Check):
                     L = rng.choice([None, 1, 2, 3, 6])
                     if L is not None and L > n - 1:
                         L = 2
+                    if rng.random() < 0.3:
+                        # a long structured run: an irregular transient, then a steady (periodic) state; few symbols, very long words
+                        n = rng.choice([130, 160, 200])
+                        nv = rng.choice([2, 3])
+                        L = rng.choice([None, 62, 70, 40, 20])
+                        prng2 = np.random.default_rng(rng.randrange(10 ** 9))
+
+                        def structured():
+                            burn = rng.randint(8, 30)
+                            period = rng.choice([2, 3, 5])
+                            x = np.concatenate([prng2.standard_normal(burn), np.tile(np.arange(period, dtype=float) - period / 2.0, n)[: n - burn]])
+                            return x + 1e-3 * prng2.standard_normal(n) * rng.choice([0.0, 1.0])
+                        sim = np.stack([np.stack([structured() for _ in range(d)], axis=1) for _ in range(e)])
+                        real = np.stack([structured() for _ in range(d)], axis=1)
+                        shape = "burnin_then_periodic"
+                        chk.count("data:burnin_then_periodic")
                     got = float(GslDivLoss(nb_values=nv, nb_word_lengths=L, coordinate_weights=wnp).compute_loss(sim, real))
                     want = ref.gsl(sim, real, nv, L, weights)
                     opts = {"nb_values": nv, "nb_word_lengths": L}; tol = 1e-6
@@ -145,7 +161,9 @@ def run(chk: Check):
                             rs.append(f"loss.gsl {eff_L} {eff_nv} {n} {e} " + " ".join(f"{len(x)} " + " ".join(map(str, x)) for x in sims) + f" {len(obs)} " + " ".join(map(str, obs)))
                         model_lean.append(("GslDivLoss.compute_loss != BlackIt.Gsl.divEnsemble (binary64 instance)", got, [1.0 / d] * d if weights is None else list(weights), case, rs))
                     if not close(got, want, tol, 1e-9):
-                        if eff_nv >= 10 or eff_L >= 16:
+                        # the recorded finding is THE lossy packing of the pinned commit, not "any deviation with many symbols or long words"
+                        pinned = ref.gsl(sim, real, nv, L, weights, pinned_packing=True) if (eff_nv >= 10 or eff_L >= 16) else None
+                        if pinned is not None and close(got, pinned, tol, 1e-9):
                             chk.fail(f"GSL-div with {eff_nv} symbols and word lengths up to {eff_L} = {got!r}, documented definition (words as tuples) = {want!r}", case,
                                      signature=SIG_GSL if eff_nv >= 10 else SIG_GSL_LEN)
                             chk.case([which, opts, e, n, d, shape, ci], d >= 2 or e >= 2, {"loss": which, "options": opts, "value": got, "reference": want})
